@@ -14,7 +14,7 @@ Theorem C01_untouched :
          (forall (p : list nat) (c : command) (a : arg),
           In (p, c) (tree_cmds root) -> In a (cmd_args c) -> a_fid a <> k) ->
          rt_vals r' k = rt_vals r k /\ rt_fl r' k = rt_fl r k.
-Proof. exact C01_untouched_main. Qed.
+Proof. exact @C01_untouched_main. Qed.
 Print Assumptions C01_untouched.
 
 (* Option.Set touches only its own field, its own flags and the callback log *)
@@ -22,7 +22,7 @@ Theorem C01_set_frame :
   forall (orc : oracles) (delim : str) (ht : rt -> str) (oc : octx) (arg : option str) 
            (r r' : rt) (e : option err),
          opt_set orc delim ht oc arg r = Ok (r', e) -> frame_at (o_fid (oc_opt oc)) r r'.
-Proof. exact opt_set_frame. Qed.
+Proof. exact @opt_set_frame. Qed.
 Print Assumptions C01_set_frame.
 
 (* a scalar holds the conversion of the argument of the (last) occurrence; a failed conversion leaves the value *)
@@ -45,7 +45,7 @@ Theorem C01_scalar :
           f_isset (rt_fl r' fid) = true /\
           f_prevent (rt_fl r' fid) = true /\
           f_clearref (rt_fl r' fid) = false /\ rt_logs r' = rt_logs r /\ frame_at fid r r').
-Proof. exact opt_set_scalar. Qed.
+Proof. exact @opt_set_scalar. Qed.
 Print Assumptions C01_scalar.
 
 (* a slice gets one element per occurrence in order; previous contents are discarded at the first occurrence only *)
@@ -61,7 +61,7 @@ Theorem C01_slice :
          exists r' : rt,
            opt_set orc delim ht oc (Some v) r = Ok (r', None) /\
            set_result fid r r' (VSlice false (old ++ [x])) /\ f_clearref (rt_fl r' fid) = false.
-Proof. exact opt_set_slice. Qed.
+Proof. exact @opt_set_slice. Qed.
 Print Assumptions C01_slice.
 
 Theorem C01_slice_twice :
@@ -78,7 +78,7 @@ Theorem C01_slice_twice :
            opt_set orc delim ht oc (Some v1) r = Ok (r1, None) /\
            opt_set orc delim ht oc (Some v2) r1 = Ok (r2, None) /\
            rt_vals r2 fid = VSlice false (old ++ [x1; x2]).
-Proof. exact opt_set_slice_twice. Qed.
+Proof. exact @opt_set_slice_twice. Qed.
 Print Assumptions C01_slice_twice.
 
 (* a map holds the last value given for each key; key/value split at the first colon *)
@@ -95,7 +95,7 @@ Theorem C01_map :
          exists r' : rt,
            opt_set orc delim ht oc (Some v) r = Ok (r', None) /\
            set_result fid r r' (VMap false (map_set old kx vx)) /\ f_clearref (rt_fl r' fid) = false.
-Proof. exact opt_set_map. Qed.
+Proof. exact @opt_set_map. Qed.
 Print Assumptions C01_map.
 
 (* a flag becomes true when it occurs *)
@@ -108,7 +108,7 @@ Theorem C01_flag :
            opt_set orc delim ht oc None r = Ok (r', None) /\
            r' = set_val (set_fl r fid (set_flags (rt_fl r fid))) fid (VBool true) /\
            set_result fid r r' (VBool true).
-Proof. exact opt_set_flag. Qed.
+Proof. exact @opt_set_flag. Qed.
 Print Assumptions C01_flag.
 
 (* a callback runs once per occurrence with the converted argument; the field is untouched *)
@@ -145,7 +145,7 @@ Theorem C01_callback :
             rt_active r' = rt_active r /\
             l_exec (rt_logs r') = l_exec (rt_logs r) /\
             l_unknown (rt_logs r') = l_unknown (rt_logs r) /\ l_out (rt_logs r') = l_out (rt_logs r)).
-Proof. exact opt_set_callback. Qed.
+Proof. exact @opt_set_callback. Qed.
 Print Assumptions C01_callback.
 
 (* choices are compared byte-exactly before conversion *)
@@ -165,6 +165,188 @@ Theorem C01_choices :
            rt_vals (set_fl r0 fid (set_flags (rt_fl r fid))) = rt_vals r)) /\
          (In v (o_choices o) ->
           opt_set orc delim ht oc (Some v) r = opt_set orc delim ht (octx_no_choices oc) (Some v) r).
-Proof. exact opt_set_choices. Qed.
+Proof. exact @opt_set_choices. Qed.
 Print Assumptions C01_choices.
+
+(* ---- added by bin/mkprops (batch 2) ---- *)
+From GoFlags Require Import Base.Str Base.Utf8 Golib.Strings Golib.Strconv Model.Types Model.Tag Model.Scan Model.Lookup Model.Convert Model.State Model.Closest Model.Help Model.Parse Model.Ini Model.Complete.
+From GoFlags Require Import Proofs.DenoteSpec.
+
+(* END TO END: on any token list that spells a list of option occurrences (all seven spellings), the whole argument loop is exactly the left-to-right fold of Option.Set over the occurrences: same final state on success, same state and the wrapped error at the first failing occurrence, same panic *)
+Theorem C01_argument_loop_is_fold_of_Set :
+  forall (cfg : pconfig) (orc : oracles) (root : command) (ht : rt -> str) (lk : lookup)
+           (toks : list str) (occs : list occ),
+         spells lk toks occs ->
+         forall (fuel : nat) (s : pst) (r : rt),
+         ps_lk s = lk ->
+         ps_args s = toks ->
+         (Datatypes.length toks < fuel)%nat ->
+         loop_rel cfg orc ht lk s toks occs r (denote orc (pc_nsdelim cfg) ht occs r)
+           (run_loop cfg orc root ht fuel s r).
+Proof. exact @C01_loop_is_fold. Qed.
+Print Assumptions C01_argument_loop_is_fold_of_Set.
+
+Theorem C01_loop_is_fold_from_initial_state :
+  forall (cfg : pconfig) (orc : oracles) (root : command) (ht : rt -> str) (args : list str)
+           (occs : list occ) (r : rt),
+         let lk := make_lookup (pc_nsdelim cfg) root [] in
+         spells lk args occs ->
+         loop_rel cfg orc ht lk (initial_pst cfg root args) args occs r (denote orc (pc_nsdelim cfg) ht occs r)
+           (run_loop cfg orc root ht (S (Datatypes.length args)) (initial_pst cfg root args) r).
+Proof. exact @C01_loop_is_fold_initial. Qed.
+Print Assumptions C01_loop_is_fold_from_initial_state.
+
+Theorem C01_error_of_a_failing_occurrence :
+  forall (cfg : pconfig) (orc : oracles) (ht : rt -> str) (oc : octx) (a : option str) 
+           (r r' : rt) (e : err),
+         opt_set orc (pc_nsdelim cfg) ht oc a r = Ok (r', Some e) ->
+         (exists m : str, e = EFlags ErrInvalidChoice m /\ wrap_marshal cfg oc e = e) \/
+         (exists m : str, e = EFlags ErrHelp m /\ wrap_marshal cfg oc e = e) \/
+         (exists m : str, e = EForeign m /\ wrap_marshal cfg oc e = marshal_error cfg oc m).
+Proof. exact @set_error_wrapped. Qed.
+Print Assumptions C01_error_of_a_failing_occurrence.
+
+(* a field with no occurrence keeps value, flags and logged calls *)
+Theorem C01_fold_untouched :
+  forall (orc : oracles) (delim : str) (ht : rt -> str) (fid : nat) (occs : list occ) 
+           (r r' : rt) (e : option err),
+         denote orc delim ht occs r = Ok (r', e) ->
+         (forall (oc : octx) (a : option str), In (oc, a) occs -> o_fid (oc_opt oc) <> fid) ->
+         rt_vals r' fid = rt_vals r fid /\ rt_fl r' fid = rt_fl r fid /\ calls_of fid r' = calls_of fid r.
+Proof. exact @C01_denote_untouched. Qed.
+Print Assumptions C01_fold_untouched.
+
+(* a scalar holds the conversion of its LAST occurrence's argument *)
+Theorem C01_fold_scalar_is_last_occurrence :
+  forall (orc : oracles) (delim : str) (ht : rt -> str) (o0 : opt) (k : kind) 
+           (occs pre post : list occ) (oc : octx) (v : str) (r r' : rt),
+         fid_identifies o0 occs ->
+         o_ty o0 = TScalar k ->
+         occs = pre ++ (oc, Some v) :: post ->
+         o_fid (oc_opt oc) = o_fid o0 ->
+         (forall (oc' : octx) (a' : option str), In (oc', a') post -> o_fid (oc_opt oc') <> o_fid o0) ->
+         denote orc delim ht occs r = Ok (r', None) ->
+         exists x : value,
+           convert_kind orc (o_base o0) v k = Ok (inl x) /\
+           (forall cur : value, convert orc (o_base o0) v (TScalar k) cur = Ok (x, None)) /\
+           rt_vals r' (o_fid o0) = x /\ (o_choices o0 = [] \/ In v (o_choices o0)).
+Proof. exact @C01_denote_scalar_last. Qed.
+Print Assumptions C01_fold_scalar_is_last_occurrence.
+
+(* a slice holds one element per occurrence, in command-line order *)
+Theorem C01_fold_slice_one_element_per_occurrence :
+  forall (orc : oracles) (delim : str) (ht : rt -> str) (o0 : opt) (e : vtype) 
+           (occs : list occ) (vs : list str) (r r' : rt),
+         fid_identifies o0 occs ->
+         o_ty o0 = TSlice e ->
+         map snd (occs_of (o_fid o0) occs) = map Some vs ->
+         vs <> [] ->
+         denote orc delim ht occs r = Ok (r', None) ->
+         let fid := o_fid o0 in
+         let old := if f_clearref (rt_fl r fid) then [] else ValueSpec.slice_elems (rt_vals r fid) in
+         exists xs : list value,
+           Forall2 (fun (v : str) (x : value) => convert orc (o_base o0) v e (zero_value e) = Ok (x, None)) vs
+             xs /\ rt_vals r' fid = VSlice false (old ++ xs) /\ f_clearref (rt_fl r' fid) = false.
+Proof. exact @C01_denote_slice_all. Qed.
+Print Assumptions C01_fold_slice_one_element_per_occurrence.
+
+Theorem C01_fold_map_last_value_per_key :
+  forall (orc : oracles) (delim : str) (ht : rt -> str) (o0 : opt) (kk kv : kind) 
+           (occs : list occ) (vs : list str) (r r' : rt),
+         fid_identifies o0 occs ->
+         o_ty o0 = TMap kk kv ->
+         map snd (occs_of (o_fid o0) occs) = map Some vs ->
+         vs <> [] ->
+         denote orc delim ht occs r = Ok (r', None) ->
+         let fid := o_fid o0 in
+         let old := if f_clearref (rt_fl r fid) then [] else ValueSpec.map_elems (rt_vals r fid) in
+         exists ps : list (value * value),
+           Forall2
+             (fun (v : str) (p : value * value) =>
+              convert_kind orc (o_base o0) (fst (ValueSpec.map_split v)) kk = Ok (inl (fst p)) /\
+              convert_kind orc (o_base o0) (snd (ValueSpec.map_split v)) kv = Ok (inl (snd p))) vs ps /\
+           rt_vals r' fid = VMap false (fold_left map_put ps old).
+Proof. exact @C01_denote_map_fold. Qed.
+Print Assumptions C01_fold_map_last_value_per_key.
+
+Theorem C01_fold_flag_true_iff_occurred :
+  forall (orc : oracles) (delim : str) (ht : rt -> str) (o0 : opt) (occs : list occ) (r r' : rt),
+         fid_identifies o0 occs ->
+         o_ty o0 = TScalar KBool ->
+         (forall (oc : octx) (a : option str), In (oc, a) occs -> o_fid (oc_opt oc) = o_fid o0 -> a = None) ->
+         denote orc delim ht occs r = Ok (r', None) ->
+         rt_vals r' (o_fid o0) =
+         (if existsb (has_fid (o_fid o0)) occs then VBool true else rt_vals r (o_fid o0)).
+Proof. exact @C01_denote_flag_iff. Qed.
+Print Assumptions C01_fold_flag_true_iff_occurred.
+
+(* a callback has run once per occurrence, in order, with the converted argument *)
+Theorem C01_fold_callback_once_per_occurrence :
+  forall (orc : oracles) (delim : str) (ht : rt -> str) (o0 : opt) (ak : option kind) 
+           (b : bool) (occs : list occ) (r r' : rt),
+         fid_identifies o0 occs ->
+         o_ty o0 = TFunc ak b ->
+         denote orc delim ht occs r = Ok (r', None) ->
+         let fid := o_fid o0 in
+         exists xs : list (option value),
+           Forall2 (fun (o : occ) (x : option value) => call_entry orc o0 (snd o) x) (occs_of fid occs) xs /\
+           calls_of fid r' = calls_of fid r ++ map (fun x : option value => (fid, x)) xs /\
+           rt_vals r' fid = rt_vals r fid /\ (occs_of fid occs <> [] -> o_is_help o0 = false).
+Proof. exact @C01_denote_callback_log. Qed.
+Print Assumptions C01_fold_callback_once_per_occurrence.
+
+Theorem C01_fold_isset_iff_occurred :
+  forall (orc : oracles) (delim : str) (ht : rt -> str) (fid : nat) (occs : list occ) (r r' : rt),
+         denote orc delim ht occs r = Ok (r', None) ->
+         let occurred := existsb (has_fid fid) occs in
+         rt_fl r' fid = (if occurred then ValueSpec.set_flags (rt_fl r fid) else rt_fl r fid) /\
+         f_isset (rt_fl r' fid) = occurred || f_isset (rt_fl r fid) /\
+         f_prevent (rt_fl r' fid) = occurred || f_prevent (rt_fl r fid) /\
+         f_clearref (rt_fl r' fid) = negb occurred && f_clearref (rt_fl r fid) /\
+         f_isdefault (rt_fl r' fid) = f_isdefault (rt_fl r fid) /\
+         f_iniquote (rt_fl r' fid) = f_iniquote (rt_fl r fid) /\
+         f_ininame (rt_fl r' fid) = f_ininame (rt_fl r fid) /\ f_deflit (rt_fl r' fid) = f_deflit (rt_fl r fid).
+Proof. exact @C01_denote_isset. Qed.
+Print Assumptions C01_fold_isset_iff_occurred.
+
+(* values after a successful argument loop are the denoted ones, for every option *)
+Theorem C01_values_after_the_loop :
+  forall (cfg : pconfig) (orc : oracles) (root : command) (ht : rt -> str) (toks : list str)
+           (occs : list occ) (fuel : nat) (s s' : pst) (r r' : rt),
+         spells (ps_lk s) toks occs ->
+         ps_args s = toks ->
+         (Datatypes.length toks < fuel)%nat ->
+         run_loop cfg orc root ht fuel s r = Ok (s', r') ->
+         ps_err s' = None ->
+         denote orc (pc_nsdelim cfg) ht occs r = Ok (r', None) /\
+         ps_args s' = [] /\
+         ps_arg s' = last toks (ps_arg s) /\
+         ps_ret s' = ps_ret s /\
+         ps_pos s' = ps_pos s /\
+         ps_err s = None /\
+         ps_cmd s' = ps_cmd s /\
+         ps_lk s' = ps_lk s /\
+         rt_active r' = rt_active r /\
+         l_exec (rt_logs r') = l_exec (rt_logs r) /\
+         l_unknown (rt_logs r') = l_unknown (rt_logs r) /\
+         l_out (rt_logs r') = l_out (rt_logs r) /\
+         (forall o0 : opt, fid_identifies o0 occs -> field_denotes orc occs r r' o0).
+Proof. exact @C01_end_to_end. Qed.
+Print Assumptions C01_values_after_the_loop.
+
+(* and they survive the defaults pass *)
+Theorem C01_values_after_ParseArgs_core :
+  forall (cfg : pconfig) (orc : oracles) (root : command) (ht : rt -> str) (args : list str)
+           (occs : list occ) (r r' : rt) (sf : pst) (rf : rt),
+         spells (make_lookup (pc_nsdelim cfg) root []) args occs ->
+         denote orc (pc_nsdelim cfg) ht occs r = Ok (r', None) ->
+         parse_core cfg orc root ht args r = Ok (sf, rf) ->
+         forall o0 : opt,
+         fid_identifies o0 occs ->
+         existsb (has_fid (o_fid o0)) occs = true ->
+         rt_vals rf (o_fid o0) = rt_vals r' (o_fid o0) /\
+         rt_fl rf (o_fid o0) = rt_fl r' (o_fid o0) /\
+         calls_of (o_fid o0) rf = calls_of (o_fid o0) r' /\ field_denotes orc occs r rf o0.
+Proof. exact @C01_parse_core_end_to_end. Qed.
+Print Assumptions C01_values_after_ParseArgs_core.
 
